@@ -363,7 +363,7 @@ impl Run {
                                 Err(p) => {
                                     let msg = panic_message(&p);
                                     let loc = take_last_panic_location();
-                                    if loc.starts_with("/repo/") || loc.contains("/repo/rs/") {
+                                    if loc.starts_with("/repo/") || loc.contains("/repo/rs/") || loc.contains("/rs/anda_") {
                                         // the code under test panicked on a workload the monitors
                                         // consider legal: no property allows that
                                         st.violation(
@@ -597,7 +597,7 @@ pub fn install_panic_hook() {
             // a panic inside a dependency (tokio, papaya, zstd-safe ...) that was reached THROUGH
             // a function of a repository crate is the repository's panic as well: look for a frame
             // of an `anda_*` crate on the stack (symbol names survive without debug info)
-            let loc = if loc.starts_with("/repo/") || loc.contains("/repo/rs/") {
+            let loc = if loc.starts_with("/repo/") || loc.contains("/repo/rs/") || loc.contains("/rs/anda_") {
                 loc
             } else {
                 let bt = std::backtrace::Backtrace::force_capture().to_string();
